@@ -13,6 +13,7 @@ def check(ctx):
     nu = _tzr.check_utc_shortcut(ctx, rep)
     rep.floor("lookup-free UTC results in the Zinc reader", nu, 1)
     n = zincspec.check(ctx, rep)
+    zincspec.check_exponent_reader(ctx, rep)
     from rules import zincspec as _zl
     nla = _zl.check_lookahead_on_demand(ctx, rep)
     rep.floor("propagated look-aheads in the number / date dispatcher", nla, 2)
